@@ -1618,7 +1618,8 @@ fn process_stream_search_params<T: Read + Write>(
     };
 
     // perform the search now synchronous/blocking:
-    let mut search_idxs: Vec<DltMessageIndexType> = Vec::with_capacity(max_results);
+    let mut search_idxs: Vec<DltMessageIndexType> =
+        Vec::with_capacity(std::cmp::min(max_results, stream_msgs_len));
 
     // check msgs from _processed_len to all_msgs_len
     // todo use parallel iterator
